@@ -52,8 +52,17 @@ def mk_case(cid, w, js, clean, recognised, rng, origin="tlc"):
     rng.shuffle(hs)
     rng.shuffle(qs)
     dirs = []
+    # directions drawn with replacement (the same half / quarter may recur in a chain) - only where every component must
+    # be read as an aliquot: whether a bare quarter was *not* read as one is observed through its direction being absent
+    # from the result, which needs distinct directions
+    repeat = rng.random() < 0.4 and all(must_be_aliquot(w, js, clean, i) for i in range(len(w)))
     for c in w:
-        dirs.append(hs.pop() if c["kind"] == "H" else qs.pop())
+        if repeat:
+            pool = ["N", "S", "E", "W"] if c["kind"] == "H" else ["NE", "NW", "SE", "SW"]
+            same = [d for d, c2 in zip(dirs, w) if c2["kind"] == c["kind"]]
+            dirs.append(same[-1] if same and rng.random() < 0.5 else rng.choice(pool))
+        else:
+            dirs.append(hs.pop() if c["kind"] == "H" else qs.pop())
     text = spell(w[0]["kind"], w[0]["class"], dirs[0], rng)
     for j, c, d in zip(js, w[1:], dirs[1:]):
         text += JOIN[j] + spell(c["kind"], c["class"], d, rng)
@@ -112,7 +121,8 @@ def run(ctx):
     keep3 = 0.35 if thorough else 0.03
     for i, c in enumerate(res.cases):
         has_bare = any(x["class"] == "BAREQ" for x in c["w"])
-        if len(c["w"]) == 3 and ctx.rng.random() > (keep3 * 8 if has_bare else keep3):
+        two_bare = sum(1 for x in c["w"] if x["class"] == "BAREQ") >= 2
+        if len(c["w"]) == 3 and not two_bare and ctx.rng.random() > (keep3 * 8 if has_bare else keep3):
             continue
         if sum(1 for x in c["w"] if x["kind"] == "Q") > 4 or sum(1 for x in c["w"] if x["kind"] == "H") > 4:
             continue
@@ -123,7 +133,7 @@ def run(ctx):
     check(ctx, cases)
     ctx.rule = ("written chains = every (kind, spelling class) sequence up to 2 components x joiners x clean_qq of "
                 "spec/AliquotLex.tla (all) and %d%% of the 3-component ones, each rendered with a random concrete spelling of "
-                "its class (letter case varied) and random distinct directions; compared with the canonical symbol text under "
+                "its class (letter case varied) and random directions (distinct, or - where every component must be read as an aliquot - in 40%% of the cases drawn with replacement); compared with the canonical symbol text under "
                 "5 configurations; non-trivial = distinct (text, clean_qq)" % int(keep3 * 100))
     ctx.assumptions += ["spelling tables of harness/drivers/c07.py (DESIGN Appendix A)",
                         "an empty joiner is not placed after a spelling that ends in a letter (except between bare quarters)"]
